@@ -23,7 +23,8 @@ EXTENDS Sem
 Models == {"Org", "Author", "Post", "Comment", "PostInfo", "AuthorInfo"}
 \* to-one relations: model -> name -> <<target model, fk column>>
 \* (Post.info and Author.info deliberately share their name and point to different tables)
-ToOne == [ Author |-> [ org |-> <<"Org", "org">>, info |-> <<"AuthorInfo", "info">> ],
+\* (Author.home is a second, NOT NULL key to Org: a mandatory hop behind the nullable hop Post.author)
+ToOne == [ Author |-> [ org |-> <<"Org", "org">>, info |-> <<"AuthorInfo", "info">>, home |-> <<"Org", "home">> ],
            Post |-> [ author |-> <<"Author", "author">>, info |-> <<"PostInfo", "info">> ],
            PostInfo |-> [ none_ |-> <<"PostInfo", "none_">> ],
            AuthorInfo |-> [ none_ |-> <<"AuthorInfo", "none_">> ],
